@@ -293,7 +293,8 @@ def run_impl(case: dict) -> str:
         if op == 'adjust':
             tz2 = case['tz2']
             arg = '()' if tz2 is None else "xs:dayTimeDuration('%s')" % dur_lex(tz2 * UM)
-            x = xpath_eval(ver, "adjust-dateTime-to-timezone(%s, %s)" % (xs_ctor(ck, a), arg))
+            fn = 'adjust-date-to-timezone' if is_date(ck) else 'adjust-dateTime-to-timezone'
+            x = xpath_eval(ver, "%s(%s, %s)" % (fn, xs_ctor(ck, a), arg))
             return canon(x, cls)
         return 'ERR:harness-unknown-op'
     except Exception as e:  # every exception of the implementation is part of its behaviour
@@ -329,7 +330,7 @@ def line_of(case: dict) -> str:
     if op in ('diff', 'cmp'):
         return f'op={op} A={a} B={vstr(case["b"])}'
     if op == 'adjust':
-        return f'op=adjust A={a} TZ={"n" if case["tz2"] is None else case["tz2"]}'
+        return f'op={"adjustdate" if is_date(ck) else "adjust"} A={a} TZ={"n" if case["tz2"] is None else case["tz2"]}'
     raise ValueError(op)
 
 
@@ -439,12 +440,7 @@ def gen_cases(rng, n, quick):
             w = gen_target_near(rng, v, ck) if rng.random() < 0.9 else v
             cases.append({'op': 'cmp', 'cls': ck, 'via': via, 'a': v, 'b': w})
         elif r < 0.95:
-            if is_date(ck):
-                ck = 'dt' + ck[1:]
-                v = gen_value(rng, ck)
-                if abs(v[0]) > 2 ** 31 - 1:
-                    v = (v[0] // 2,) + v[1:]
-            cases.append({'op': 'adjust', 'cls': ck, 'a': v, 'tz2': rng.choice([None, 0, 840, -840, 330, -300, rng.randint(-840, 840)])})
+            cases.append({'op': 'adjust', 'cls': ck, 'a': v, 'tz2': rng.choice([None, 0, 840, -840, 840, -840, 330, -300, rng.randint(-840, 840)])})
         else:
             # lexical forms: valid and invalid fields, 24:00:00, year 0
             y = rng.choice([0, 0, 1, -1, -4, -5, 4, 9999, 10000, -10000, -9999, 10004, 2 ** 31 - 1, -(2 ** 31 - 1), gen_year(rng)])
@@ -511,6 +507,11 @@ CORPUS = [
     {'op': 'cmp', 'cls': 'dt10', 'a': (1, 1, 1, 1, 840), 'b': (-1, 12, 31, 68719893183, 330)},
     # F11i (fixed): negative differences with a fraction
     {'op': 'diff', 'cls': 'dt10', 'via': 'xpath', 'a': (2000, 1, 1, 0, None), 'b': (2000, 1, 1, 500000, None)},
+    # F11j (fixed): adjust-date-to-timezone with offsets 24 hours or more apart
+    {'op': 'adjust', 'cls': 'd10', 'a': (9999, 2, 28, 0, -840), 'tz2': 840},
+    {'op': 'adjust', 'cls': 'd10', 'a': (-5, 2, 28, 0, 840), 'tz2': -840},
+    {'op': 'adjust', 'cls': 'd11', 'a': (2002, 3, 7, 0, -420), 'tz2': -600},
+    {'op': 'adjust', 'cls': 'd11', 'a': (10000, 1, 1, 0, 840), 'tz2': 345},
     # F11k / F11l (fixed): XSD 1.1 year numbering in string() and year-from-*
     {'op': 'lex', 'cls': 'dt11', 'y': -10000}, {'op': 'lex', 'cls': 'dt11', 'y': -1}, {'op': 'lex', 'cls': 'dt11', 'y': 0},
     {'op': 'lex', 'cls': 'd11', 'y': -2}, {'op': 'lex', 'cls': 'dt10', 'y': -10000}, {'op': 'lex', 'cls': 'dt10', 'y': 0},
@@ -525,7 +526,7 @@ CORPUS = [
 
 
 # ----------------------------------------------------------------------- correspondence
-SITES = {'mk': 'AbstractDateTime.__init__/fromstring', 'lex': 'fromstring/iso_year/year-from-*',
+SITES = {'adjustdate': 'XPathToken.adjust_datetime (Date)', 'mk': 'AbstractDateTime.__init__/fromstring', 'lex': 'fromstring/iso_year/year-from-*',
          'todelta': 'AbstractDateTime.todelta', 'rt': 'fromdelta(todelta())', 'fromdelta': 'AbstractDateTime.fromdelta',
          'add': '_operation DayTimeDuration', 'sub': '_operation DayTimeDuration', 'addym': '_operation YearMonthDuration',
          'diff': '_operation AbstractDateTime', 'cmp': 'AbstractDateTime._compare', 'adjust': 'XPathToken.adjust_datetime',
@@ -605,7 +606,7 @@ def jsonable(c):
 
 def correspond(run: Run) -> None:
     rng = run.rng
-    n = run.scale(26000, 400000)
+    n = run.scale(60000, 600000)
     cases = [dict(c) for c in CORPUS] + gen_cases(rng, n, run.quick)
     run.stats.rule = (
         'one case = one operation on generated operands: constructor from lexical fields (valid/invalid, 24:00:00, '
@@ -645,8 +646,8 @@ def search(run: Run):
                             w = w[:3] + (0,) + w[4:]
                         cases.append({'op': 'cmp', 'cls': ck, 'a': v, 'b': w})
                         cases.append({'op': 'diff', 'cls': ck, 'a': w, 'b': v})
-                        if not is_date(ck):
-                            cases.append({'op': 'adjust', 'cls': ck, 'a': v, 'tz2': 600})
+                        cases.append({'op': 'adjust', 'cls': ck, 'a': v, 'tz2': 600})
+                        cases.append({'op': 'adjust', 'cls': ck, 'a': v, 'tz2': -840})
     try:
         for i in range(0, len(cases), 20000):
             compare(sub, cases[i:i + 20000], record=False)
@@ -692,7 +693,7 @@ def py_expected(c):
     if op == 'adjust':
         if a[4] is None or c['tz2'] is None:
             return vstr(a[:4] + (c['tz2'],))
-        return vstr(of_local(instant_us(a) + c['tz2'] * UM, c['tz2']))
+        return fin(of_local(instant_us(a) + c['tz2'] * UM, c['tz2']))
     return None
 
 
@@ -771,7 +772,7 @@ def body(run: Run) -> int:
         'years within ±2^31 and durations within ±2^62 s (constructor limits of the library, accepted)',
         'known finding F11d: timeline offsets beyond the timedelta range (|days| > 999999999, |year| ≳ 2.7 million) '
         'raise OverflowError (FODT0001 through XPath); theorems carry the hypothesis TdOk',
-        'adjust-date/time-to-timezone, format-dateTime, the system-clock implicit timezone, gYear..gDay and xs:time '
+        'adjust-time-to-timezone, format-dateTime, the system-clock implicit timezone, gYear..gDay and xs:time '
         'arithmetic are not modelled']
     if getattr(run, 'replay', None):
         data = json.loads(Path(run.replay).read_text())
@@ -786,7 +787,7 @@ def body(run: Run) -> int:
             return 1 if ds else 0
         print('replay file has no failing input; broken:', data.get('broken'))
         return 1
-    run.prove(['EPV.Props.C11'], ['EPV.Lemmas.CalendarDelta', 'EPV.Proto'])
+    run.prove(['EPV.Props.C11'], ['EPV.Lemmas.CalendarOps', 'EPV.Spec.Timeline', 'EPV.Model.Calendar', 'EPV.Proto'])
     try:
         correspond(run)
     except DriverError as e:
